@@ -300,7 +300,7 @@ fn versions() -> Vec<Version> {
 }
 
 fn fail(prop: &str, check: &str, input: String, detail: String) -> ! {
-    let esc = |s: &str| s.replace('\\', "\\\\").replace('"', "\\\"");
+    let esc = |s: &str| s.replace('\\', "\\\\").replace('"', "\\\"").replace('\t', "\\t").replace('\n', "\\n").replace('\r', "\\r");
     println!("WITNESS {{\"property\":\"{}\",\"check\":\"{}\",\"input\":\"{}\",\"detail\":\"{}\"}}", prop, esc(check), esc(&input), esc(&detail));
     std::process::exit(1)
 }
@@ -350,9 +350,9 @@ fn gen_num(r: &mut Rng) -> u64 {
     if r.chance(70) { r.below(4) } else { *r.pick(&[5u64, 9, 10, 11, 99, 100, 65535, 4294967295, 4294967296, 900719925474098, 900719925474099]) }
 }
 fn gen_pre(r: &mut Rng) -> Vec<Id> {
-    let n = 1 + r.below(3);
+    let n = 1 + if r.chance(85) { r.below(3) } else { 3 + r.below(4) };
     (0..n).map(|_| if r.chance(45) { Id::N(if r.chance(80) { r.below(3) } else { *r.pick(&[10u64, 11, 4294967296, 900719925474100]) }) }
-                   else { Id::A(r.pick(&["alpha", "beta", "rc", "a", "b", "x-y", "0a", "a0", "pre-1", "A", "Z9"]).to_string()) }).collect()
+                   else { Id::A(r.pick(&["alpha", "beta", "rc", "a", "b", "x-y", "0a", "a0", "pre-1", "A", "Z9", "abcdefghijklmnopqrstuvwxyz0123456789", "a-b-c-d-e-f", "0123456789a", "X", "x", "v1"]).to_string()) }).collect()
 }
 /// a number spelled with an optional leading zero (loose mode)
 fn spell_num(r: &mut Rng, n: u64) -> String { if r.chance(12) { format!("0{}", n) } else { n.to_string() } }
@@ -392,7 +392,7 @@ fn gen_simple(r: &mut Rng) -> GenSimple {
     loop {
         let gp = gen_partial(r);
         let form = r.below(10);
-        let blank = if r.chance(20) { " " } else { "" };
+        let blank = *r.pick(&["", "", "", "", "", "", "", " ", " ", "   ", "\t"]);
         let (text, cs, known_dev) = match form {
             0 | 1 => (gp.text.clone(), npm_primitive("", &gp.p), false),
             2 => (format!("~{}{}", blank, gp.text), npm_tilde(&gp.p), false),
@@ -412,11 +412,11 @@ fn gen_alternative(r: &mut Rng) -> (String, Option<CSet>) {
         return (format!("{} - {}", f.text, t.text), Some(npm_hyphen(&f.p, &t.p)));
     }
     if r.chance(4) { return (r.pick(&["foo", "bar baz", "#", "a|b"]).to_string(), None); }
-    let n = 1 + if r.chance(60) { 0 } else { 1 + r.below(3) };
+    let n = 1 + if r.chance(60) { 0 } else if r.chance(85) { 1 + r.below(3) } else { 4 + r.below(4) };
     let mut text = String::new();
     let mut cs: CSet = vec![];
     for i in 0..n {
-        if i > 0 { text.push_str(if r.chance(15) { "  " } else { " " }); }
+        if i > 0 { text.push_str(*r.pick(&[" ", " ", " ", " ", " ", "  ", "    ", "\t", " \t "])); }
         if r.chance(6) { text.push_str(*r.pick(&["foo ", "#1 ", "a|b "])); }
         let s = gen_simple(r);
         text.push_str(&s.text);
@@ -426,11 +426,11 @@ fn gen_alternative(r: &mut Rng) -> (String, Option<CSet>) {
     (text, Some(cs))
 }
 fn gen_range(r: &mut Rng) -> Case {
-    let n = 1 + if r.chance(65) { 0 } else { 1 + r.below(3) };
+    let n = 1 + if r.chance(65) { 0 } else if r.chance(85) { 1 + r.below(3) } else { 4 + r.below(5) };
     let mut text = String::new();
     let mut rr: RefRange = vec![];
     for i in 0..n {
-        if i > 0 { text.push_str(*r.pick(&[" || ", "||", " ||", "|| ", "  ||  "])); }
+        if i > 0 { text.push_str(*r.pick(&[" || ", " || ", "||", " ||", "|| ", "  ||  ", "\t||\t", "   ||"])); }
         let (t, cs) = gen_alternative(r);
         text.push_str(&t);
         if let Some(cs) = cs { rr.push(cs); }
@@ -491,7 +491,7 @@ fn dump_random(seed: u64, n: usize) {
         let c = gen_range(&mut r);
         let ks = probe_versions(&c.rr, &mut r);
         let vs: Vec<String> = ks.iter().map(|k| format!("[\"{}\",{}]", fmt_key(k), ref_sat(&c.rr, k))).collect();
-        println!("{{\"range\":\"{}\",\"versions\":[{}]}}", c.text.replace('\\', "\\\\").replace('"', "\\\""), vs.join(","));
+        println!("{{\"range\":\"{}\",\"versions\":[{}]}}", c.text.replace('\\', "\\\\").replace('"', "\\\"").replace('\t', "\\t"), vs.join(","));
     }
 }
 
